@@ -80,3 +80,32 @@ def test_tbl_reader():
 
 
 TESTS += [test_gff_reader, test_tbl_reader]
+
+
+def test_known_findings_consistency():
+    """every recorded finding names a matcher that exists in its check module; no check carries an unregistered matcher;
+    fixed entries have the documented shape"""
+    import importlib
+    import json
+    import os
+    import re
+
+    root = os.path.dirname(os.path.dirname(os.path.abspath(__file__)))
+    d = json.load(open(os.path.join(root, "known_findings.json")))
+    used = {}
+    for f in d["findings"]:
+        mod = importlib.import_module("checks." + f["property"].lower())
+        assert f["matcher"] in getattr(mod, "MATCHERS", {}), (f["id"], f["matcher"])
+        for k in ("id", "property", "what", "minimal_input", "call_site"):
+            assert f.get(k), (f.get("id"), k)
+        used.setdefault(f["property"], set()).add(f["matcher"])
+    for i in range(1, 21):
+        prop = f"C{i:02d}"
+        mod = importlib.import_module("checks." + prop.lower())
+        extra = set(getattr(mod, "MATCHERS", {})) - used.get(prop, set())
+        assert not extra, (prop, "matchers without a registered finding", extra)
+    for line in d["fixed"]:
+        assert re.match(r"^fixed: property=C\d\d [0-9a-f]{7} \S", line), line
+
+
+TESTS += [test_known_findings_consistency]
